@@ -1380,7 +1380,7 @@ def _plate(r, kind, nested):
 def ob_expand_plates(tier):
     def fn():
         u = _utils()
-        ranges = ("0:1", "0:2", "1:3")
+        ranges = ("0:1", "0:2", "1:3", "0:0")
         makers = [lambda n: {"id": "o%d" % n, "type": STUB_TYPE, "children": []}]
         for r in ranges:
             for k in ("star", "var", "none"):
@@ -1721,6 +1721,22 @@ def ob_factory(which):
                 if not isinstance(q, Parameter) or not close(q.tensor, direct.tensor) or q.id != direct.id or dic["q%d" % j] is not q:
                     msgs.append("Parameter.json_factory(%s) loads %r, direct %r" % (kw, q.tensor, direct.tensor))
                 n += 1
+        elif which == "derived parameters":
+            from torchtree.core.parameter import ViewParameter
+            base = [0.5, 1.5, 2.5, 3.5]
+            for idx, direct_idx in ((2, 2), ("1:3", slice(1, 3)), ("::2", slice(None, None, 2)), ([0, 2], torch.tensor([0, 2])), ([3], torch.tensor([3])),
+                                    ([True, False, True, False], torch.tensor([True, False, True, False])), ("-1:", slice(-1, None))):
+                dic = {}
+                try:
+                    v = u.process_object(ViewParameter.json_factory("v", Parameter.json_factory("p", tensor=base), idx), dic)
+                except Exception as e:
+                    msgs.append("ViewParameter.json_factory(..., indices=%r) does not load: %s: %s" % (idx, type(e).__name__, e))
+                    n += 1
+                    continue
+                direct = ViewParameter("v", Parameter("p", torch.tensor(base)), direct_idx)
+                if not isinstance(v, ViewParameter) or not close(v.tensor, direct.tensor) or dic["v"] is not v or v.parameter is not dic["p"]:
+                    msgs.append("ViewParameter.json_factory(..., indices=%r) loads %r, direct %r" % (idx, v.tensor, direct.tensor))
+                n += 1
         else:
             from torchtree.distributions.bayesian_bridge import BayesianBridge
             from torchtree.distributions.deterministic_normal import DeterministicNormal
@@ -2053,7 +2069,7 @@ def obligations(tier, seed):
     add("C13.sharing.real", "B", ob_real_sharing(), "sharing")
     add("C13.comments.real", "B", ob_comments_no_effect(), "comments", funcs=FUNCS[4:5])
     add("C13.main_pipeline", "B", ob_main_pipeline(), "comments, ignored objects and plates through the real main() (bounded)", funcs=FUNCS[4:5])
-    for w in ("Parameter", "Distribution", "Distribution.refs", "DeterministicNormal", "BayesianBridge", "ScaleMixtureNormal"):
+    for w in ("Parameter", "derived parameters", "Distribution", "Distribution.refs", "DeterministicNormal", "BayesianBridge", "ScaleMixtureNormal"):
         add("C13.factory[%s]" % w, "B", ob_factory(w), "json_factory", funcs=[])
     add("C13.factory[Distribution, literal parameters]", "B", ob_factory_literals(), "json_factory", funcs=[])
     add("C13.factory[tree models x keep_branch_lengths]", "B", ob_factory_tree_models(), "json_factory", funcs=[])
